@@ -39,6 +39,45 @@ CLASSES = ["TimePoint", "Duration", "TimeZone", "TimeRecurrence"]
 
 # identifiers whose mere presence anywhere in the package makes the attribute
 # write discipline unanalysable for this translator
+def static_setattr_names(tree, name_node):
+    """setattr(obj, <name>, value) outside the four classes is the attribute store obj.<name> = value when the name
+    is a string literal or the target of an enclosing `for <name> in (<string literals>)` that nothing else in that
+    function assigns; returns the possible names, or None when they cannot be told."""
+    parent = {}
+    for nd in ast.walk(tree):
+        for ch in ast.iter_child_nodes(nd):
+            parent[id(ch)] = nd
+    call = parent.get(id(name_node))
+    if not (isinstance(call, ast.Call) and call.func is name_node and len(call.args) == 3 and not call.keywords):
+        return None
+    a = call.args[1]
+    if isinstance(a, ast.Constant) and isinstance(a.value, str):
+        return [a.value]
+    if not isinstance(a, ast.Name):
+        return None
+    loops, fn, nd = [], None, call
+    while id(nd) in parent:
+        nd = parent[id(nd)]
+        if isinstance(nd, ast.For) and isinstance(nd.target, ast.Name) and nd.target.id == a.id:
+            loops.append(nd)
+        if isinstance(nd, (ast.FunctionDef, ast.AsyncFunctionDef, ast.Lambda, ast.ClassDef)):
+            fn = nd
+            break
+    if len(loops) != 1 or not isinstance(fn, ast.FunctionDef):
+        return None
+    it = loops[0].iter
+    if not (isinstance(it, (ast.Tuple, ast.List)) and it.elts
+            and all(isinstance(x, ast.Constant) and isinstance(x.value, str) for x in it.elts)):
+        return None
+    stores = sum(1 for x in ast.walk(fn)
+                 if (isinstance(x, ast.Name) and x.id == a.id and not isinstance(x.ctx, ast.Load))
+                 or (isinstance(x, ast.arg) and x.arg == a.id)
+                 or (isinstance(x, (ast.Global, ast.Nonlocal)) and a.id in x.names))
+    if stores != 1:
+        return None
+    return [x.value for x in it.elts]
+
+
 REFLECTIVE = {
     "__setattr__", "__delattr__", "__set__", "__delete__", "__dict__",
     "__setstate__", "__getstate__", "__reduce__", "__reduce_ex__",
@@ -228,7 +267,9 @@ def scan_foreign(mods, infos):
                 problems.append("%s:%d writes attribute %s outside the four classes"
                                 % (fname, n.lineno, n.attr))
             if isinstance(n, ast.Name) and n.id == "setattr":
-                problems.append("%s:%d setattr outside the four classes" % (fname, n.lineno))
+                names = static_setattr_names(tree, n)
+                if names is None or any(x in allslots or x in ("__class__", "__slots__") for x in names):
+                    problems.append("%s:%d setattr outside the four classes" % (fname, n.lineno))
             if isinstance(n, ast.Attribute) and isinstance(n.ctx, (ast.Store, ast.Del)) and (
                     (isinstance(n.value, ast.Name) and n.value.id in CLASSES) or
                     (isinstance(n.value, ast.Attribute) and n.value.attr in CLASSES)):
